@@ -45,7 +45,7 @@ theorem opcode_list_targets (ver : Nat) (hv : ver ≠ 11) (raw : List RawOp) (en
 so they are members of `targets` in `_split_bytecode` -/
 theorem pop_block_targets_are_targets (ops ops' : List Op) (h : addPopBlockTargets ops = .ok ops') :
     ops'.length = ops.length ∧
-    ∀ i a, ops[i]? = some a → ∃ b, ops'[i]? = some b ∧ b.idx = a.idx ∧ b.next = a.next ∧ b.prev = a.prev ∧
+    ∀ (i : Nat) (a : Op), ops[i]? = some a → ∃ b : Op, ops'[i]? = some b ∧ b.idx = a.idx ∧ b.next = a.next ∧ b.prev = a.prev ∧
       b.cls = a.cls ∧ b.target = a.target ∧ b.eaft = a.eaft ∧
       ∀ t, b.blockTarget = some t → t ∈ targetsOf ops := by
   have p := addPopBlockTargets_ok h
@@ -106,23 +106,22 @@ theorem surgery_partition_partial (ops : Array Op) (B0 B1 : List Block) (ml : Li
     ∀ x, x ∈ flat out.blocks ↔ (x ∈ flat B0 ∧ x ∉ poppedOps B1 ml ∧ x ∉ jumpBackRemoved ops B0) :=
   surgery_partition hB hnd hrm hml hg h
 
-/-- class number by name (rows are sorted by name; the numbers move when opcodes.py gains classes) -/
-def cls (n : String) : Nat := (table.findIdx? fun ci => ci.name == n).getD 0
-
-def r (off : Nat) (name : String) (argval : Nat) (pre : Option Nat) (push : Bool := false) : RawOp :=
-  { off := off, cls := cls name, argval := argval, pre := pre, pushExc := push }
+/-- a raw item; class numbers come from the regenerated `Cls.*` constants (rows move when opcodes.py
+gains classes) -/
+def r (off : Nat) (cls : Nat) (argval : Nat) (pre : Option Nat) (push : Bool := false) : RawOp :=
+  { off := off, cls := cls, argval := argval, pre := pre, pushExc := push }
 
 /-- the stream CPython 3.12 emits for
 `async def f(x):\n  async for a in x:\n    if a: continue\n    g(a)\n  return 1` (offsets doubled) -/
 def asyncForRaw : List RawOp :=
-  [r 0 "RETURN_GENERATOR" 0 none, r 4 "POP_TOP" 0 none, r 8 "RESUME" 0 none, r 12 "LOAD_FAST" 0 none,
-   r 16 "GET_AITER" 0 none, r 20 "GET_ANEXT" 0 none, r 24 "LOAD_CONST" 0 none, r 28 "SEND" 48 none,
-   r 36 "YIELD_VALUE" 0 none, r 40 "RESUME" 0 none, r 44 "JUMP_BACKWARD_NO_INTERRUPT" 28 none,
-   r 48 "END_SEND" 0 none, r 52 "STORE_FAST" 0 none, r 56 "LOAD_FAST" 0 none, r 60 "POP_JUMP_IF_FALSE" 68 none,
-   r 64 "JUMP_BACKWARD" 20 none, r 68 "LOAD_GLOBAL" 0 none, r 88 "LOAD_FAST" 0 none, r 92 "CALL" 0 none,
-   r 108 "POP_TOP" 0 none, r 112 "JUMP_BACKWARD" 20 none, r 116 "CLEANUP_THROW" 0 none,
-   r 120 "JUMP_BACKWARD" 48 none, r 124 "END_ASYNC_FOR" 0 none, r 128 "RETURN_CONST" 0 none,
-   r 132 "CALL_INTRINSIC_1" 0 none, r 136 "RERAISE" 0 none]
+  [r 0 Cls.RETURN_GENERATOR 0 none, r 4 Cls.POP_TOP 0 none, r 8 Cls.RESUME 0 none, r 12 Cls.LOAD_FAST 0 none,
+   r 16 Cls.GET_AITER 0 none, r 20 Cls.GET_ANEXT 0 none, r 24 Cls.LOAD_CONST 0 none, r 28 Cls.SEND 48 none,
+   r 36 Cls.YIELD_VALUE 0 none, r 40 Cls.RESUME 0 none, r 44 Cls.JUMP_BACKWARD_NO_INTERRUPT 28 none,
+   r 48 Cls.END_SEND 0 none, r 52 Cls.STORE_FAST 0 none, r 56 Cls.LOAD_FAST 0 none, r 60 Cls.POP_JUMP_IF_FALSE 68 none,
+   r 64 Cls.JUMP_BACKWARD 20 none, r 68 Cls.LOAD_GLOBAL 0 none, r 88 Cls.LOAD_FAST 0 none, r 92 Cls.CALL 0 none,
+   r 108 Cls.POP_TOP 0 none, r 112 Cls.JUMP_BACKWARD 20 none, r 116 Cls.CLEANUP_THROW 0 none,
+   r 120 Cls.JUMP_BACKWARD 48 none, r 124 Cls.END_ASYNC_FOR 0 none, r 128 Cls.RETURN_CONST 0 none,
+   r 132 Cls.CALL_INTRINSIC_1 0 none, r 136 Cls.RERAISE 0 none]
 
 def asyncForEntries : List (Nat × Nat) :=
   [(8, 132), (20, 124), (36, 116), (40, 124), (52, 132), (116, 124), (124, 132)]
@@ -133,15 +132,19 @@ def finalCodes (ver : Nat) (raw : List RawOp) (entries : List (Nat × Nat)) : Op
   | .ok res => some (res.blocks.map (·.code))
   | .error _ => none
 
-/-- Without the guard the statement is false of the code: on the stream above the `END_ASYNC_FOR` op (index 23)
-ends up in two blocks (it is merged into both `JUMP_BACKWARD` blocks).  Known finding
-`c16-end-async-for-duplicated`, replayed on the real code by the check. -/
+/-- the smallest stream with the same shape: an `async for` head (`GET_ANEXT`), two `JUMP_BACKWARD`s to it,
+the `END_ASYNC_FOR` both are associated with by the exception table -/
+def miniAsyncRaw : List RawOp :=
+  [r 0 Cls.GET_ANEXT 0 none, r 4 Cls.POP_JUMP_IF_FALSE 12 none, r 8 Cls.JUMP_BACKWARD 0 none,
+   r 12 Cls.JUMP_BACKWARD 0 none, r 16 Cls.END_ASYNC_FOR 0 none, r 20 Cls.RETURN_CONST 0 none]
+
+/-- Without the guard the statement is false of the code: the `END_ASYNC_FOR` op (index 4) ends up in two
+blocks, because it is merged into both `JUMP_BACKWARD` blocks.  The same happens on the stream CPython emits
+for `asyncForRaw` (op 23, see the example at the end) — known finding `c16-end-async-for-duplicated`,
+replayed on the real code by the check. -/
 theorem surgery_partition_not_full :
-    ∃ codes, finalCodes 12 asyncForRaw asyncForEntries = some codes ∧ ¬ codes.flatten.Nodup ∧
-      codes = [[0, 1, 2, 3, 4, 5, 6], [7], [8, 9, 10], [11, 12, 13, 14], [23], [16, 17, 18, 19, 23], [24], [25, 26]] := by
-  refine ⟨_, ?_, ?_, rfl⟩
-  · decide +kernel
-  · decide +kernel
+    ∃ codes, finalCodes 12 miniAsyncRaw [(0, 16)] = some codes ∧ ¬ codes.flatten.Nodup := by
+  refine ⟨[[0, 1], [4], [4], [5]], by decide +kernel, by decide⟩
 
 /-! ## order_nodes / compute_predecessors (cfg_utils.py) -/
 
@@ -231,42 +234,55 @@ theorem table_block_facts :
 
 /-! ## non-vacuity -/
 
-/-- `def f(x):\n try:\n  for a in x:\n   if a: break\n except E:\n  return 2\n return 1` after the real
-`_add_setup_except` (two synthetic SETUP_EXCEPT_311 / POP_BLOCK pairs, one jump into the range) -/
-def tryForRaw : List RawOp :=
-  [r 0 "RESUME" 0 none, r 4 "NOP" 0 none, r 7 "SETUP_EXCEPT_311" 0 (some 60), r 8 "LOAD_FAST" 0 none,
-   r 12 "GET_ITER" 0 none, r 16 "FOR_ITER" 48 none, r 24 "STORE_FAST" 0 none, r 28 "LOAD_FAST" 0 none,
-   r 32 "POP_JUMP_IF_TRUE" 40 none, r 33 "POP_BLOCK" 0 none, r 36 "JUMP_BACKWARD" 16 none true,
-   r 39 "SETUP_EXCEPT_311" 0 (some 60), r 40 "POP_TOP" 0 none, r 41 "POP_BLOCK" 0 none,
-   r 44 "RETURN_CONST" 0 none, r 48 "END_FOR" 0 none, r 52 "NOP" 0 none, r 56 "RETURN_CONST" 0 none,
-   r 60 "PUSH_EXC_INFO" 0 none, r 64 "LOAD_GLOBAL" 0 none, r 84 "CHECK_EXC_MATCH" 0 none,
-   r 88 "POP_JUMP_IF_FALSE" 104 none, r 92 "POP_TOP" 0 none, r 96 "POP_EXCEPT" 0 none,
-   r 100 "RETURN_CONST" 0 none, r 104 "RERAISE" 0 none, r 108 "COPY" 0 none, r 112 "POP_EXCEPT" 0 none,
-   r 116 "RERAISE" 0 none]
+/-- `def f(x):\n try:\n  x = g()\n except E:\n  x = 2\n return x` after the real `_add_setup_except`
+(a synthetic SETUP_EXCEPT_311 at offset 3.5 with its pre-set target, a synthetic POP_BLOCK at 22.5) -/
+def tryRaw : List RawOp :=
+  [r 0 Cls.RESUME 0 none, r 4 Cls.NOP 0 none, r 7 Cls.SETUP_EXCEPT_311 0 (some 56), r 8 Cls.LOAD_GLOBAL 0 none,
+   r 28 Cls.CALL 0 none, r 44 Cls.STORE_FAST 0 none, r 45 Cls.POP_BLOCK 0 none, r 48 Cls.LOAD_FAST 0 none,
+   r 52 Cls.RETURN_VALUE 0 none, r 56 Cls.PUSH_EXC_INFO 0 none, r 60 Cls.LOAD_GLOBAL 0 none,
+   r 80 Cls.CHECK_EXC_MATCH 0 none, r 84 Cls.POP_JUMP_IF_FALSE 112 none, r 88 Cls.POP_TOP 0 none,
+   r 92 Cls.LOAD_CONST 0 none, r 96 Cls.STORE_FAST 0 none, r 100 Cls.POP_EXCEPT 0 none, r 104 Cls.LOAD_FAST 0 none,
+   r 108 Cls.RETURN_VALUE 0 none, r 112 Cls.RERAISE 0 none, r 116 Cls.COPY 0 none, r 120 Cls.POP_EXCEPT 0 none,
+   r 124 Cls.RERAISE 0 none]
 
-def tryForEntries : List (Nat × Nat) := [(8, 60), (40, 60), (48, 60), (60, 108), (104, 108)]
+def tryEntries : List (Nat × Nat) := [(8, 56), (56, 116), (112, 116)]
 
 def orderOf (ver : Nat) (raw : List RawOp) (entries : List (Nat × Nat)) : Option (List Nat) :=
   match orderCode ver raw entries with
   | .ok res => some res.order
   | .error _ => none
 
+/-- `x = await y`-shaped stream: `SEND … JUMP_BACKWARD_NO_INTERRUPT` followed by `CLEANUP_THROW` -/
+def miniSendRaw : List RawOp :=
+  [r 0 Cls.LOAD_CONST 0 none, r 4 Cls.SEND 24 none, r 8 Cls.YIELD_VALUE 0 none, r 12 Cls.RESUME 0 none,
+   r 16 Cls.JUMP_BACKWARD_NO_INTERRUPT 4 none, r 20 Cls.CLEANUP_THROW 0 none, r 24 Cls.END_SEND 0 none,
+   r 28 Cls.RETURN_VALUE 0 none]
+
 -- the premises hold on real streams and the model computes what the real code computes
-example : rawWF tryForRaw = true := by decide +kernel
+example : rawWF tryRaw = true := by decide +kernel
 example : rawWF asyncForRaw = true := by decide +kernel
-example : orderOf 12 tryForRaw tryForEntries = some [0, 5, 6, 9, 10, 15, 12, 14, 18, 22, 25] := by decide +kernel
-example : orderOf 12 asyncForRaw asyncForEntries = some [0, 7, 8, 11, 15, 16, 24] := by decide +kernel
-example : (buildOps 12 tryForRaw tryForEntries).toOption.map opsWF = some true := by decide +kernel
--- the merge guard holds on a stream with a single back jump and fails on the witness
-example : ((buildOps 12 asyncForRaw asyncForEntries).toOption.bind fun ops =>
-    (mergeListOf 12 ops).map fun p => (p.2, mergeGuard p.1 p.2)) = some ([(4, 8), (5, 8)], false) := by
+example : orderOf 12 tryRaw tryEntries = some [0, 7, 9, 13, 19] := by decide +kernel
+example : (buildOps 12 tryRaw tryEntries).toOption.map opsWF = some true := by decide +kernel
+-- the real `async for` stream: op 23 (END_ASYNC_FOR) is in two final blocks
+example : finalCodes 12 asyncForRaw asyncForEntries =
+    some [[0, 1, 2, 3, 4, 5, 6], [7], [8, 9, 10], [11, 12, 13, 14], [23], [16, 17, 18, 19, 23], [24], [25, 26]] := by
   decide +kernel
--- the SEND exclusion is non-empty there (ops 9, 10 lie inside the yield_value_block) and no target is in it
-example : ((buildOps 12 asyncForRaw asyncForEntries).toOption.map fun ops =>
-    (sendInterior 12 ops, noInteriorTarget 12 ops)) = some ([9, 10], true) := by decide +kernel
+-- the merge guard fails exactly there and holds with a single back jump
+example : ((buildOps 12 miniAsyncRaw [(0, 16)]).toOption.bind fun ops =>
+    (mergeListOf 12 ops).map fun p => (p.2, mergeGuard p.1 p.2)) = some ([(1, 3), (2, 3)], false) := by
+  decide +kernel
+example : ((buildOps 12 [r 0 Cls.GET_ANEXT 0 none, r 4 Cls.LOAD_CONST 0 none, r 8 Cls.JUMP_BACKWARD 0 none,
+      r 12 Cls.END_ASYNC_FOR 0 none, r 16 Cls.RETURN_CONST 0 none] [(0, 12)]).toOption.bind fun ops =>
+    (mergeListOf 12 ops).map fun p => (p.2, mergeGuard p.1 p.2)) = some ([(0, 1)], true) := by
+  decide +kernel
+-- the SEND exclusion is non-empty (ops 3, 4, 5 lie inside the yield_value_block) and no target is in it
+example : ((buildOps 12 miniSendRaw []).toOption.map fun ops =>
+    (sendInterior 12 ops, noInteriorTarget 12 ops, targetsOf ops)) = some ([3, 4, 5], true, [6, 1]) := by
+  decide +kernel
+example : finalCodes 12 miniSendRaw [] = some [[0], [1], [2, 3, 4, 5], [6, 7]] := by decide +kernel
 -- order_nodes on a graph with a cycle, a dead node and a join
-example : orderNodes [0, 1, 2, 3, 4] (outOf [(0, 1), (0, 2), (1, 3), (2, 3), (3, 1), (4, 3)]) = .ok [0, 1, 2, 3] := by
-  decide +kernel
+example : (orderNodes [0, 1, 2, 3, 4] (outOf [(0, 1), (0, 2), (1, 3), (2, 3), (3, 1), (4, 3)])).toOption =
+    some [0, 2, 1, 3] := by decide +kernel
 example : (computePredecessors [0, 1, 2] (outOf [(0, 1), (1, 2), (2, 1)])).toOption.map
     (fun pm => (G pm 0, G pm 1, G pm 2)) = some ([0], [1, 0, 2], [2, 1, 0]) := by decide +kernel
 
